@@ -31,6 +31,8 @@
 #include "celeritas/user/StepCollector.hh"
 #include "celeritas/user/StepDiagnostic.hh"
 #include "celeritas/user/StepInterface.hh"
+#include "celeritas/user/detail/StepParams.hh"
+#include "corecel/data/AuxParamsRegistry.hh"
 
 #include "celeritas/MockTestBase.hh"
 #include "celeritas/SimpleTestBase.hh"
@@ -87,6 +89,31 @@ class Recorder final : public StepInterface
 };
 
 //---------------------------------------------------------------------------//
+// Forwards to a SimpleCalo, but hands it a stream id chosen by a schedule:
+// the process_steps call of iteration `it` goes to stream (it*mult+off) % n.
+// Exercises SimpleCalo's per-stream store and calc_total_energy_deposition.
+class StreamSplitter final : public StepInterface
+{
+  public:
+    StreamSplitter(std::shared_ptr<SimpleCalo> calo, unsigned n, unsigned mult, unsigned off)
+        : calo_(std::move(calo)), n_(n), mult_(mult), off_(off)
+    {
+    }
+    Filters filters() const final { return calo_->filters(); }
+    StepSelection selection() const final { return calo_->selection(); }
+    void process_steps(HostStepState state) final
+    {
+        unsigned sid = (static_cast<unsigned>(g_iter) * mult_ + off_) % n_;
+        calo_->process_steps(HostStepState{state.steps, StreamId{sid}});
+    }
+    void process_steps(DeviceStepState) final {}
+
+  private:
+    std::shared_ptr<SimpleCalo> calo_;
+    unsigned n_, mult_, off_;
+};
+
+//---------------------------------------------------------------------------//
 class SimpleProblem : public test::SimpleTestBase
 {
   public:
@@ -121,6 +148,7 @@ int run(std::istream& in)
     std::vector<std::shared_ptr<StepInterface>> ifaces;
     std::vector<std::pair<int, std::shared_ptr<SimpleCalo>>> calos;
     std::vector<Batch> batches;
+    unsigned nstreams = 1, smult = 0, soff = 0;
 
     std::string line;
     while (std::getline(in, line))
@@ -139,6 +167,8 @@ int run(std::istream& in)
             is >> action_diag;
         else if (key == "stepdiag")
             is >> step_diag;
+        else if (key == "streams")
+            is >> nstreams >> smult >> soff;
         else if (key == "iface")
         {
             // iface <selbits> <nonzero> <copy> <ndet> vol det ...
@@ -172,9 +202,13 @@ int run(std::istream& in)
                 labels.emplace_back(s);
             }
             auto calo = std::make_shared<SimpleCalo>(
-                std::move(labels), *core->geometry(), 1);
+                std::move(labels), *core->geometry(), nstreams);
             calos.push_back({static_cast<int>(ifaces.size()), calo});
-            ifaces.push_back(calo);
+            if (nstreams > 1)
+                ifaces.push_back(std::make_shared<StreamSplitter>(
+                    calo, nstreams, smult, soff));
+            else
+                ifaces.push_back(calo);
         }
         else if (key == "batch")
         {
@@ -253,6 +287,19 @@ int run(std::istream& in)
         put(sel.energy_deposition);
         out << "COMBINED " << b << '\n';
         out << "NVOL " << core->geometry()->volumes().size() << '\n';
+        // the combined StepParamsData (detector per volume, non-zero filter)
+        auto const& areg_aux = *core->aux_reg();
+        auto sp = std::dynamic_pointer_cast<celeritas::detail::StepParams const>(
+            areg_aux.at(areg_aux.find("detector-step")));
+        if (sp)
+        {
+            auto const& href = sp->host_ref();
+            out << "PARAMS " << (href.nonzero_energy_deposition ? 1 : 0) << ' '
+                << href.detector.size();
+            for (auto v : range(VolumeId{href.detector.size()}))
+                out << ' ' << idv(href.detector[v]);
+            out << ' ' << (sp->has_detectors() ? 1 : 0) << '\n';
+        }
     }
 
     StepperInput inp;
@@ -324,10 +371,11 @@ int main(int argc, char** argv)
     // stdin holds one or more configurations, each introduced by a line
     // "=== <problem>"; the output of each is introduced by "=== CONFIG <k>"
     std::ios::sync_with_stdio(false);
+    std::streambuf* old_buf = nullptr;
     if (argc > 1)
     {
         outfile.open(argv[1]);
-        std::cout.rdbuf(outfile.rdbuf());
+        old_buf = std::cout.rdbuf(outfile.rdbuf());
     }
     std::vector<std::pair<std::string, std::string>> configs;
     std::string line;
@@ -363,5 +411,10 @@ int main(int argc, char** argv)
         }
     }
     std::cout.flush();
+    if (old_buf)
+    {
+        // outfile is destroyed before the static destructors run
+        std::cout.rdbuf(old_buf);
+    }
     return 0;
 }
